@@ -280,3 +280,13 @@ var ProfileC04 = &Profile{
 		return (h.Labels["c04-multi-request-sender"] > 0 || h.Labels["c04-accepted-but-not-executed"] > 0) && okCount(h, "c04.swap_in_2hop", "c04.swap_out_2hop") > 0
 	},
 }
+
+var ProfileC07 = &Profile{
+	ID: "C07", Name: "vault-chain", MinBlocks: 5, MaxBlocks: 40, MaxTxs: 5, Spec: specDefault, Check: CheckC07Chain,
+	Weights: withWeights(ProfileC06.Weights, map[string]int{"stablestake.bond": 14, "stablestake.unbond": 12, "leveragelp.open": 16}),
+	Gaps:    ProfileC06.Gaps,
+	Rule:    "history in which the vault share value had a long fractional part while lenders bonded and unbonded and a loan was granted",
+	NonTrivial: func(h *History) bool {
+		return h.Labels["c07-fractional-rate"] > 0 && okCount(h, "leveragelp.open") > 0 && okCount(h, "stablestake.unbond") > 0 && okCount(h, "stablestake.bond") > 1
+	},
+}
